@@ -104,6 +104,42 @@ def escape_family():
             yield body.replace("%s", f), "sass"
 
 
+SASS_LINES = [
+    "a", "b: c", ".x", "&:hover", "& > d", "d", "e: f g", "/*", "/* x", "/* x */", "/*!", "*/", " * y", "// z", "//", "/**/", "/* #{1 +", "/* #{1 + 1}",
+    "@if true", "@else", "@else if false", "@each $i in 1 2", "@for $i from 1 through 2", "@while false", "@media screen", "@supports (a: b)",
+    "@at-root", "@at-root .r", "=m", "=m($a)", "+m", "+m(1)", "@mixin n", "@include n", "@function f()", "@return 1", "@content", "@debug 1", "@warn w",
+    "@error e", "@import 'x'", "@use 'y'", "@forward 'z'", "@charset 'u'", "@extend .x", "$v: 1", "$v: 1 !default", "--c: { a }", "font:", "family: x",
+    "p: 1 +", "q: (1,", "2)", "r: \"s", "t\"", "k: #{", "}", "a,", "b", "[x=", "y]", ":not(", ".z)", "@keyframes k", "from", "50%", "to", "@font-face",
+    "@page :first", "@unknown x", "@unknown", ";", "{", "a { b: c }", "a: b;", "", "", " ", "\t", "é: ü", "\\", "u: url(", "v)", "!important", "w: x !important",
+]
+
+
+def sass_lines(rng):
+    """indentation-sensitive soup for the indented syntax: dictionary lines at random (also inconsistent, decreasing,
+    tab/space mixed) indentation, blank lines, CR/CRLF/FF line ends"""
+    n = rng.range(2, 12)
+    level = 0
+    out = []
+    unit = rng.choice(["  ", "  ", "    ", "\t", " "])
+    for _ in range(n):
+        k = rng.below(10)
+        if k < 4:
+            level = max(0, level + rng.choice([-2, -1, -1, 0]))
+        elif k < 8:
+            level = level + 1 if rng.chance(0.7) else level
+        else:
+            level = rng.below(4)
+        ind = unit * level
+        if rng.chance(0.06):
+            ind = ind[:-1] if ind else " "
+        if rng.chance(0.04):
+            ind = ind.replace(" ", "\t", 1) if " " in ind else ind + " "
+        out.append(ind + rng.choice(SASS_LINES))
+    nl = rng.choice(["\n", "\n", "\n", "\r\n", "\r", "\f"])
+    text = nl.join(out)
+    return text + (nl if rng.chance(0.7) else "")
+
+
 def soup(rng, maxtok=40):
     n = 1 + rng.below(maxtok)
     parts = []
